@@ -80,6 +80,9 @@ def lambda_leaves_p():
     out += ["o/ps/any(q: q/a gt 0)", "o/ps/all(q: q/a ge 0)", "w/ps/any(q: q/a eq 2)", "o/ks/any(j: j/x eq 2)",
             "o/ps/any(q: q/kids/any(k: k/x eq 2))", "o/ps/all(q: q/kids/any())", "tags/any(t: t/ps/all(q: q/a gt 0))",
             "tags/any(t: t/ps/any(q: q/kids/all(k: k/x eq 2)))", "kids/any(k: k/x eq 2) and kids/all(k: k/x eq 2)", "w/o/ps/any()", "w/o/ws/any(v: v/id gt 1)",
+            # bodies that NAVIGATE from the related row (Django joins inside the sub-query; SQLAlchemy refuses: a join inside rel.any() would be a cross join)
+            "kids/any(k: k/o/name eq 'x')", "kids/all(k: k/o/name eq 'x')", "kids/any(k: k/o/n eq -1)", "kids/any(k: k/o/n eq 5 and k/x eq 2)", "kids/all(k: k/o/n ne -1)",
+            "o/ps/any(q: q/w/o/label eq 'l')", "o/ps/any(q: q/dept/id eq 2)", "kids/any(k: k/o/id eq 4)",
             # names the collection's model lacks although an enclosing model has them: never true on any child row
             "kids/any(k: k/a eq 2)", "kids/any(k: k/a gt 0 or k/x eq 2)", "tags/any(t: t/a ge 0)", "o/ps/any(q: q/n eq 5)", "kids/all(k: k/s eq 'a')"]
     return out
